@@ -10,7 +10,7 @@ Specification: spec/Listing.tla
 (M) Listing_MC: assembler core (emit / reserve / ORG / PHASE / DEPHASE / SEGMENT) x 5 (granularity, list
     granularity) pairs x list radices x start addresses incl. a 2^24 carry; invariants RowsFaithful, FirstRowAddr,
     EmissionInImage, InfoJustified, RowFits.  quick: 3 statements, <= 9 bytes/line, radix {16, 2};
-    thorough: 4 statements, <= 24 bytes, radix {2, 8, 10, 16, 36}.  The code's deviation (address step only valid
+    thorough: 3 statements, <= 17 bytes, radix {2, 8, 10, 16, 36}.  The code's deviation (address step only valid
     for granularity 1 or = unit size) is exhibited as an ASSUME (OddPair).
 (G) Listing_Gen: TLC-simulated programs of the same core, recorded with the rows / label values the specification
     expects; rendered in dialects z80 / 8051 (gran 1, list 1), 68000 (gran 1, list 2, big endian, padding),
@@ -97,9 +97,9 @@ def render(beh, dname, r, share):
                 meta.append({"step": i, "inc": 0, "line": len(lines), "label": "L%d" % i})
             else:
                 fn = "inc%d.inc" % i
-                sources[fn] = "; include file\nL%d:\t%s\n" % (i, stmt)
+                sources[fn] = "; include file\n" * (100 + i) + "L%d:\t%s\n" % (i, stmt)     # unique line numbers
                 lines.append("\tinclude\t\"%s\"" % fn)
-                meta.append({"step": i, "inc": 1, "line": 2, "label": "L%d" % i})
+                meta.append({"step": i, "inc": 1, "line": 101 + i, "label": "L%d" % i})
         elif k == "res":
             cnt = st["len"] // d["unit"]
             lines.append("L%d:\t%s\t%d" % (i, d["res"], cnt))
@@ -158,8 +158,8 @@ def case_events(trace, files, base, radix, share_kind, debug_kind, pbytes, readi
         stats["code_rows"] = sum(1 for x in rows if x["units"])
         ev += listing.row_events(rows, em)
         for (n, sect, vtxt, seg, used) in lsyms:
-            if sect is not None or n.upper() not in vals or "." in vtxt or vtxt.startswith('"'):
-                continue
+            if sect is not None or n.upper() not in vals or seg == "B" or vtxt.startswith('"'):
+                continue                  # section-local, no integer, bit symbol (printed by DissectBit), string
             neg = vtxt.startswith("-")
             v = listing.parse_int(vtxt.lstrip("-"), radix)
             ev.append({"a": "SYM", "src": "lst", "name": n.upper(),
@@ -172,8 +172,8 @@ def case_events(trace, files, base, radix, share_kind, debug_kind, pbytes, readi
             emidx.setdefault((e["seg"], e["line"], e["_addr"]), i + 1)
     byline = {}
     for i, e in enumerate(em):
-        if e["k"] == "emit":
-            byline.setdefault((e["seg"], e["line"]), []).append(i)
+        if e["k"] in ("emit", "reserve"):
+            byline.setdefault((e["seg"], e["line"] & 0xFFFF), []).append(i)
     if debug_kind == "MAP" and files.get(base + ".map") is not None:
         ml, ms = listing.parse_map(files[base + ".map"].decode("latin-1"))
         for (segn, fil, ln, addr) in ml:
@@ -203,7 +203,7 @@ def case_events(trace, files, base, radix, share_kind, debug_kind, pbytes, readi
             at = 0
             for i in byline.get((1, ln), []):
                 e = em[i]
-                if e["_addr"] <= addr < e["_addr"] + max(1, len(e["bytes"]) // e["gran"]):
+                if e["_addr"] <= addr < e["_addr"] + e["units"]:
                     at = i + 1
                     break
             if at == 0 and byline.get((1, ln)):
@@ -322,7 +322,7 @@ def judge(cases, timeout=1700):
     bad = {}
     for l in outs[-1]["bad"]:
         ci, k = owner[l - 1]
-        bad.setdefault(ci, k)
+        bad.setdefault(ci, []).append(k)
     return bad, r
 
 
@@ -433,37 +433,62 @@ def main(tier):
     again = []
     for ci in sorted(bad):
         m, res = infos[ci]
-        e = cases[ci][bad[ci]]
-        if e["a"] == "ROW" and m["radix"] != 16:
+        if m["radix"] != 16 and any(cases[ci][k]["a"] == "ROW" for k in bad[ci]):
             ev2, _ = case_events(res["trace"], res["files"], m["base"], m["radix"], m["share"], m["debug"], res["p"],
                                  reading_radix=16)
             again.append((ci, ev2))
     hexread_ok = set()
+    hexread_bad = {}
     if again:
         with Phase("Listing_Trace: re-reading %d rejected listings with hexadecimal digits" % len(again)):
             bad2, tr2 = judge([ev2 for (ci, ev2) in again])
         rep.cov["states"] += tr2.distinct
         rep.cov["transitions"] += tr2.generated
         for k, (ci, ev2) in enumerate(again):
-            if k not in bad2 or ev2[bad2[k]]["a"] != "ROW":
+            rowbad = [j for j in bad2.get(k, []) if ev2[j]["a"] == "ROW"]
+            if not rowbad:
                 hexread_ok.add(ci)
+            else:
+                hexread_bad[ci] = (ev2, rowbad[0])
+    nrej = 0
     for ci in sorted(bad):
         m, res = infos[ci]
-        k = bad[ci]
-        e = cases[ci][k]
-        dev = "listradix-ignored" if ci in hexread_ok else "none"
-        what = "%s (radix %d, -g %s, share %s): %s" % (m["name"], m["radix"], m["debug"], m["share"], describe(cases[ci], k))
-        if dev != "none":
-            what += "  [the listing is right when its digits are read as hexadecimal]"
-        files = {}
-        for fn, data in res["files"].items():
-            files[os.path.basename(fn)] = data
-        if m["kind"] == "generated":
-            for fn, txt in m["sources"].items():
-                files[fn] = txt
-        rep.violation(what, case={"name": m["name"], "kind": m["kind"], "radix": m["radix"], "share": m["share"],
-                                  "debug": m["debug"], "event": {k2: v for k2, v in e.items()}},
-                      files=files, key={"event": e["a"], "deviation": dev})
+        reported = {}
+        for k in bad[ci]:
+            e = cases[ci][k]
+            dev = "none"
+            if e["a"] == "ROW" and ci in hexread_ok:
+                dev = "listradix-ignored"
+            if e["a"] in ("MAPLINE", "OBJLINE"):
+                # which statement is it?  (classification only: the listing's copy of the source line)
+                lst = res["files"].get(m["base"] + ".lst")
+                rows, _ = listing.parse_listing(lst.decode("latin-1"), m["radix"]) if lst else ([], None)
+                srcs = [x["src"] for x in rows if x["line"] == e["line"] and not x["cont"]]
+                import re as _re
+                if any(_re.search(r"(^|\s)align\s", x, _re.I) for x in srcs):     # (line numbers repeat in include files)
+                    dev = "align-without-code"
+            if reported.get((e["a"], dev), 0) >= 2:
+                continue                                    # two examples per kind and run are enough
+            reported[(e["a"], dev)] = reported.get((e["a"], dev), 0) + 1
+            nrej += 1
+            what = "%s (radix %d, -g %s, share %s): %s" % (m["name"], m["radix"], m["debug"], m["share"],
+                                                          describe(cases[ci], k))
+            if dev == "listradix-ignored":
+                what += "  [the listing is right when its digits are read as hexadecimal]"
+            elif e["a"] == "ROW" and ci in hexread_bad:
+                ev2, k2 = hexread_bad[ci]
+                what = "%s (radix %d, -g %s, share %s): even with its digits read as hexadecimal: %s" % (
+                    m["name"], m["radix"], m["debug"], m["share"], describe(ev2, k2))
+                e = ev2[k2]
+            files = {}
+            for fn, data in res["files"].items():
+                files[os.path.basename(fn)] = data
+            if m["kind"] == "generated":
+                for fn, txt in m["sources"].items():
+                    files[fn] = txt
+            rep.violation(what, case={"name": m["name"], "kind": m["kind"], "radix": m["radix"], "share": m["share"],
+                                      "debug": m["debug"], "event": {k2: v for k2, v in e.items()}},
+                          files=files, key={"event": e["a"], "deviation": dev})
     # model expectation for generated programs (diagnostic) ----------------------------------------------
     ndrift = 0
     for ci, (m, res) in enumerate(infos):
@@ -530,5 +555,48 @@ def replay(path):
         r = aslrun.assemble(bld, srcs, opts=opts, events="file,emit,sym", want=["a.lst"])
         ev, _ = case_events(r.trace, r.files, "a", c["radix"], c["share"], c["debug"], r.p)
         bad, _ = judge([ev])
-        log("replay: TLC %s the run%s" % ("rejects" if bad else "accepts", (": " + describe(ev, bad[0])) if bad else ""))
+        log("replay: TLC %s the run%s" % ("rejects" if bad else "accepts", (": " + describe(ev, bad[0][0])) if bad else ""))
     return 0
+
+
+def selftest(tier):
+    """binding demonstration: a run that TLC accepts is rejected after one field of the observation is changed.
+    (Source mutations: selftest/C19-m*.py with selftest/mutate_and_check.sh.)"""
+    import copy
+    bld = build.get("hook")
+    src = {"a.asm": "\tcpu\t68000\nEQA\tequ\t4660\nL1:\tdc.b\t1,2,3,4,5,6,7,8,9\n\tphase\t32768\n"
+                    "L2:\tdc.w\t258,772\n\tdephase\n\tshared\tL1,L2,EQA\n\tend\n"}
+    r = aslrun.assemble(bld, src, opts=["-q", "-L", "-g", "MAP", "-c"], events="file,emit,sym", want=["a.lst", "a.map", "a.h"])
+    ev, _ = case_events(r.trace, r.files, "a", 16, "c", "MAP", r.p)
+    variants = {"unchanged": ev}
+
+    def first(kind, pred=lambda e: True):
+        return next(i for i, e in enumerate(ev) if e["a"] == kind and pred(e))
+    v = copy.deepcopy(ev)
+    i = first("ROW", lambda e: e["units"])
+    v[i]["units"][0]["shown"][-1] ^= 1
+    variants["listed byte changed"] = v
+    v = copy.deepcopy(ev)
+    i = first("ROW", lambda e: e["units"] and e["cont"])
+    v[i]["addr"][1] += 1
+    variants["continuation address changed"] = v
+    v = copy.deepcopy(ev)
+    i = first("SYM", lambda e: e["src"] == "share-c")
+    v[i]["val"] = "1"
+    variants["share value changed"] = v
+    v = copy.deepcopy(ev)
+    i = first("MAPLINE")
+    v[i]["addr"][1] += 2
+    variants["MAP address changed"] = v
+    v = copy.deepcopy(ev)
+    v[0]["recs"][0]["data"][3] ^= 255
+    variants["code file byte changed"] = v
+    names = list(variants)
+    bad, _ = judge([variants[n] for n in names])
+    ok = True
+    for k, n in enumerate(names):
+        rej = k in bad
+        log("selftest %-32s %s" % (n, "rejected" if rej else "accepted"))
+        ok = ok and (rej == (n != "unchanged"))
+    log("selftest C19 binding: %s" % ("OK" if ok else "FAILED"))
+    return 0 if ok else 1
